@@ -3,9 +3,9 @@ from props.ts_common import ts_obl
 
 TITLE = 'Annotations round-trip in order and seeking by timestamp omits nothing'
 LEVEL_TEXT = ('bounded symbolic verification of the real annotation index builder (wr_ts.c) at the file-layer seam: every annotation is listed exactly once, in write order, in the '
-              'level-1 indices, INDEX/SUMMARY pairs are adjacent, upper-level entries reference the indices below with their first timestamp; annotation record payload round-trip')
+              'level-1 indices, INDEX/SUMMARY pairs are adjacent, upper-level entries reference the indices below with their first timestamp; seek completeness of the real jls_core_ts_seek over such a tree with symbolic timestamps and seek time')
 TRUSTED = ['cbmc 6.11', 'recording sinks at jls_core_wr_index / jls_core_wr_summary / jls_raw_chunk_tell', 'decoder clauses from format.h in harness/c11_ts.c']
-OUTSIDE = ['seek completeness of jls_core_ts_seek / jls_core_annotations over a chunk store (reader side not decided by this check)',
+OUTSIDE = ['the iteration loop of jls_core_annotations after the seek (follows item_next; callback stop) and the record payload round-trip',
            'entry counts other than the listed instances, decimate factors other than 2/3']
 EXPLANATION = ('O1: exactly N annotations (one instance per N) with symbolic non-decreasing timestamps (runs of equal timestamps included), symbolic type/group, decimate factor 2 or 3: the '
                'chunk sequence emitted by jls_wr_ts_anno + jls_wr_ts_close is decoded in the harness; a symbolic watched INDEX/SUMMARY pair and entry are compared with the written sequence.')
@@ -18,4 +18,14 @@ def obligations(tier):
     if tier == 'thorough':
         for n in [4, 10]:
             o.append(ts_obl('O1_index_construction_D3_N%d' % n, False, 3, n, timeout=3000, tiers=('thorough',)))
+    for n, df in ([(7, 2)] if tier == 'quick' else [(3, 2), (5, 2), (7, 2), (8, 2), (10, 3)]):
+        o.append(Obl('O2_seek_completeness_D%d_N%d' % (df, n), 'c11_seek.c', units=['core.c', 'buffer.c'], seams={'core.c': ['jls_core_rd_chunk']},
+                     defines=['JLS_VERIF_SIGNAL_COUNT=2', 'JLS_VERIF_SOURCE_COUNT=2', 'JLS_VERIF_FSR_BUFFER_U64=2', 'JLS_VERIF_BUF_DEFAULT_SIZE=128', 'JLS_VERIF_BUF_STRING_SIZE=16',
+                              'N_FIXED=%d' % n, 'DF=%d' % df],
+                     unwind=18, unwind_text=[('harness', r'i < N_FIXED', n + 2), ('jls_core_rd_chunk', r'c < MAXC', 12), ('jls_core_ts_seek', r'for \\(; ; \\+\\+idx\\)', df + 2)],
+                     typed_calloc=True, timeout=900 if tier == 'quick' else 2400, backend=PORTFOLIO, objbits=10,
+                     desc='jls_core_ts_seek over an index tree of %d entries (decimate %d, symbolic non-decreasing timestamps, optional single-entry top level), symbolic seek time: '
+                          'nothing with timestamp >= t lies before the position found, at most one delivered entry is earlier' % (n, df),
+                     bound='%d entries, decimate factor %d, timestamp steps < 1000' % (n, df),
+                     assumes=['the index tree satisfies the structure the builder produces (decided in O1_index_construction); chunks are served at the jls_core_rd_chunk seam']))
     return o
